@@ -1659,8 +1659,8 @@ namespace
                 runtime.__logmsg(err::ExpectedArrayTypeMissmatch(runtime.context_active().current_frame().diag_info_from_position(), 0, std::array<type, 2> { t_array(), t_scalar() }, params_descriptors.at(3).type()));
                 return {};
             }
-            else if (params_descriptors.size() >= 4 && !params_descriptors.at(3).is<t_array>())
-            {
+            else if (params_descriptors.size() >= 4 && params_descriptors.at(3).is<t_array>())
+            { // an array of admissible counts: every element has to be a number
                 auto tmp = params_descriptors.at(3).data<d_array>();
                 flag = false;
                 for (size_t j = 0; j < tmp->size(); j++)
